@@ -392,6 +392,17 @@ def g_validate_data(repo):
     g.raw('spec_validate.rs')
     g.raw('prelude_validate_data.rs')
     g.fn('U-evaldata', V, 'evaluate_against_data_input', spec='evaluate_against_data_input.spec+evaluate_against_data_input_proof.spec', props=['C06', 'C08'])
+    # R16 fragment (C08 / C17): the statement of StructuredEvaluator::evaluate that merges the input parameters into one data file
+    g.fragment('U-smerge', CMD + 'reporters/validate/structured.rs', 'evaluate', r"impl<'eval> StructuredEvaluator<'eval>", r'let\s+each\s*=\s*match\s+&self\.input_params\s*\{', 0,
+               ('input_params: &Option<PathAwareValue>, file: &DataFile', 'Result<PathAwareValue>'), 'Ok(each)',
+               '''    ensures
+        // no precondition: for every input-parameter payload and data file the statement must not panic;
+        // a failing merge (a key defined twice) is an error of the run (C17), not an abort
+        *input_params is None ==> res == Ok::<PathAwareValue, Error>(file.path_value),
+        *input_params matches Some(d) ==> (res is Ok ==> res->Ok_0 == merged(d, file.path_value) || res->Ok_0 == merged(file.path_value, d)),
+''',
+               'the statement that merges the --input-parameters payload into the document of one data file (structured validate)',
+               props=['C08', 'C17'], subst=[('self.input_params', 'input_params')])
     # R16 fragment (C17): the statement of Validate::execute that folds one --input-parameters file into the payload
     g.fragment('U-pfold', V, 'execute', r'Executable for Validate', r'primary_path_value\s*=\s*match\s+primary_path_value\s*\{', 0,
                ('primary_in: Option<PathAwareValue>, path_value: PathAwareValue', 'Result<Option<PathAwareValue>>'), 'Ok(primary_path_value)',
